@@ -2,6 +2,7 @@
 //! usage: rfverif <property> --tier quick|thorough --seed N --out DIR
 #![feature(rustc_private)]
 extern crate rustc_lexer;
+mod c02;
 mod c07;
 mod c09;
 mod c12;
@@ -10,6 +11,7 @@ mod shape_corr;
 mod corpus;
 mod gen;
 mod sweep;
+mod toks;
 mod pool;
 mod util;
 
@@ -35,11 +37,16 @@ fn main() {
         i += 1;
     }
     let code = match prop.as_str() {
+        "c02" => c02::run(&tier, seed, &out),
         "c07" => c07::run(&tier, seed, &out),
         "c09" => c09::run(&tier, seed, &out),
         "c12" => c12::run(&tier, seed, &out),
         "c16" => c16::run(&tier, seed, &out),
         "probe" => probe(&out),
+        // rfverif tokens <file> [keep]  : the encoded token list of a file (for the C01/C03 validators)
+        "tokens" => { let src = std::fs::read_to_string(&args[2]).unwrap_or_default(); println!("{}", toks::encode_tokens(&src, args.get(3).map(|s| s == "keep").unwrap_or(false))); 0 }
+        // rfverif fmt <file> [k=v,k=v]  : formats a file's text in-process and prints the result
+        "fmt" => { let src = std::fs::read_to_string(&args[2]).unwrap_or_default(); let mut cfg: Vec<(String, String)> = corpus::header_config(&src); if let Some(extra) = args.get(3) { for kv in extra.split(',') { if let Some((k, v)) = kv.split_once('=') { cfg.push((k.to_string(), v.to_string())); } } } pool::install_panic_hook(); let r = pool::format_here(&pool::Job { src, cfg, file_lines: None }); eprintln!("status={:?} flags={:?} entries={}", r.status, r.flags, r.entries.len()); print!("{}", r.out); 0 }
         "sweep" => sweep::run(&args.get(2).cloned().unwrap_or_default(), seed, std::env::var("LIMIT").ok().and_then(|s| s.parse().ok()).unwrap_or(0), std::env::var("TIMEOUT_S").ok().and_then(|s| s.parse().ok()).unwrap_or(20)),
         _ => { eprintln!("unknown property {}", prop); 2 }
     };
